@@ -149,6 +149,6 @@ Definition fast_sir_const (g : graph) (tau gamma : Q)
     | None =>
       let n := match rho with None => 1%Z | Some r => round_half_even (Qnat (length (gnodes g)) * r) end in
       if (n <? 0)%Z then BFail ValueErr
-      else BSample (map knode (gnodes g)) (Z.to_nat n) (fun ks => go (concat ks))
+      else BSample (map knode (sample_pop g r0)) (Z.to_nat n) (fun ks => go (concat ks))
     end
   end.
